@@ -290,6 +290,32 @@ template <int N> static void op_idet(const Case& c, Outcome& o) {
   if ((I128)g != d) { o.bad(71, "determinant of an int matrix is not the Leibniz expansion"); return; } if ((I128)gt != d) { o.bad(72, "determinant(transpose(M)) != determinant(M) for an int matrix"); return; }
 }
 
+
+// ------------------------------------------------------------------ large 4x4 grid {-1,0,1,2}^16, float, light-weight reference     words: [index base 4]
+// determinant against the integer Leibniz value; inverse through the two defining identities with the condition number taken
+// from the returned inverse itself (||M|| ||X||, equal to cond(M) up to a factor 1 +- u cond); |det| = 1: X*M = I exactly.
+static void op_light4(const Case& c, Outcome& o) {
+  int e[4][4]; uint64_t idx = c.w[0]; for (int k = 0; k < 16; ++k) { e[k / 4][k % 4] = (int)(idx & 3) - 1; idx >>= 2; }
+  long long det = 0, perm = 0; for (int k = 0; k < 24; ++k) { const int* p = PR.p[4][k]; long long t = (long long)e[0][p[0]] * e[1][p[1]] * e[2][p[2]] * e[3][p[3]]; det += PR.s[4][k] * t; perm += t < 0 ? -t : t; }
+  o.cls(det == 0 ? 0 : (det == 1 || det == -1) ? 1 : 2);
+  glm::mat4 M; for (int cc = 0; cc < 4; ++cc) for (int r = 0; r < 4; ++r) M[cc][r] = (float)e[cc][r];
+  const double u = std::ldexp(1.0, -24);
+  float g = glm::determinant(M); o.res(b32(g)); o.exp(b32((float)det)); if (!(std::fabs((double)g - (double)det) <= 16 * u * (double)perm)) { o.bad(1, "determinant(M) differs from the Leibniz expansion by more than 4N u sum|terms|"); return; }
+  if ((det == 1 || det == -1) && !((double)g == (double)det)) { o.bad(2, "determinant of an integer unimodular matrix is not exact"); return; }
+  if (det == 0) return;
+  glm::mat4 X = glm::inverse(M); double ni = 0, n1 = 0, xi = 0, x1 = 0;
+  for (int a = 0; a < 4; ++a) { double s1 = 0, s2 = 0, s3 = 0, s4 = 0; for (int b = 0; b < 4; ++b) { s1 += std::fabs((double)M[b][a]); s2 += std::fabs((double)M[a][b]); s3 += std::fabs((double)X[b][a]); s4 += std::fabs((double)X[a][b]); }
+    ni = std::max(ni, s1); n1 = std::max(n1, s2); xi = std::max(xi, s3); x1 = std::max(x1, s4); }
+  const double kappa = std::max(ni * xi, n1 * x1), tol = 32 * u * kappa; double rl = 0, rr = 0;
+  for (int cc = 0; cc < 4; ++cc) for (int r = 0; r < 4; ++r) { double a = 0, b = 0; for (int k = 0; k < 4; ++k) { a += (double)X[k][r] * (double)M[cc][k]; b += (double)M[k][r] * (double)X[cc][k]; }
+    a = std::fabs(a - (cc == r)); b = std::fabs(b - (cc == r)); if (!(a <= rl)) rl = a; if (!(b <= rr)) rr = b; }
+  o.res(b64(rl), b64(rr)); o.exp(b64(tol));
+  if (!(kappa <= 1e4)) { o.bad(7, "inverse(M): ||M|| ||inverse(M)|| exceeds any condition number possible on this grid"); return; }
+  if (!(rl <= tol)) { o.bad(4, "inverse(M)*M differs from I by more than 8N u cond(M)"); return; }
+  if (!(rr <= tol)) { o.bad(5, "M*inverse(M) differs from I by more than 8N u cond(M)"); return; }
+  if ((det == 1 || det == -1) && !(rl == 0 && rr == 0)) { o.bad(6, "inverse of an integer unimodular matrix is not exact"); return; }
+}
+
 // =========================================================================================================== registration
 static uint64_t ipow(uint64_t b, int e) { uint64_t r = 1; while (e-- > 0) r *= b; return r; }
 static Domain grid(int N, int base, int off, const char* set) {
@@ -314,7 +340,7 @@ template <int N, typename T> static void reg(Engine& E, const char* tn) {
   const Domain pos = named(range("pos", 0, N * N, true), "E_ij all positions");
   const std::vector<int> pall = fl ? std::vector<int>{3, 4, 5, 6, 7, 8, 9, 10} : std::vector<int>{8, 12, 16, 20, 24};
   const std::vector<int> pq = N == 4 ? (fl ? std::vector<int>{3, 7, 10} : std::vector<int>{8, 16, 24}) : pall;
-  { Op& op = E.add("determinant/inverse/inverseTranspose" + t, op_main<N, T>); op.quick = {X({full, sc})}; op.thorough = {X({fullT, sc})};
+  { Op& op = E.add("determinant/inverse/inverseTranspose" + t, op_main<N, T>); op.quick = {X({full, sc})}; op.thorough = {X({fullT, exps({0})}), X({full, exps({-20, 20})})};
     op.classes = {"singular (determinant only)", "permutation-like", "triangular", "unimodular", "general non-singular"}; }
   { Op& op = E.add("near-singular M0+2^-p*E_ij: determinant/inverse/inverseTranspose" + t, op_near<N, T>);
     op.quick = {X({small, pos, plist("p=", pq)})}; op.thorough = {X({N == 3 ? g3 : N == 2 ? g5 : g2, pos, plist("p=", pall)})};
@@ -325,17 +351,18 @@ template <int N, typename T> static void reg(Engine& E, const char* tn) {
     op.quick = {X({small, B})}; op.thorough = {X({small, BT})}; op.classes = {"product non-singular", "product singular"}; }
   { Op& op = E.add("operator/ (mat/mat, mat/=mat, mat/vec, vec/mat)" + t, op_div<N, T>); const Domain pr = named(range("partner", 0, 4, true), "4 partner matrices/vectors");
     op.quick = {X({small, pr, sc})}; op.thorough = {X({N == 4 ? g2 : g5, pr, sc})}; op.classes = {"unimodular", "general non-singular"}; }
-  { Op& op = E.add("gtx adjugate" + t, op_adjugate<N, T>); op.quick = {X({full, exps({0})}), X({small, exps({-20, 20})})}; op.thorough = {X({fullT, sc})}; op.classes = {"singular", "non-singular"}; }
+  { Op& op = E.add("gtx adjugate" + t, op_adjugate<N, T>); op.quick = {X({full, exps({0})}), X({small, exps({-20, 20})})}; op.thorough = {X({fullT, exps({0})}), X({full, exps({-20, 20})})}; op.classes = {"singular", "non-singular"}; }
   { Op& op = E.add("gtx qr_decompose/rq_decompose" + t, op_qr<N, T>); op.quick = {small}; op.thorough = {full}; op.classes = {"non-singular", "singular (skipped)"}; }
   { Op& op = E.add("gtx matrix_query isNull/isIdentity/isNormalized/isOrthogonal" + t, op_query<N, T>); op.quick = {full}; op.thorough = {fullT}; op.classes = {"null", "identity", "orthogonal", "other"}; }
 }
 template <int N, typename T> static void reg_affine(Engine& E, const char* tn) {
   const std::string t = std::string("<") + std::to_string(N) + "," + tn + ">"; const bool fl = sizeof(T) == 4;
   const Domain L = N == 3 ? grid(2, 5, 2, "{-2..2}") : grid(3, 3, 1, "{-1,0,1}"), LT = N == 3 ? L : grid(3, 5, 2, "{-2..2}");
-  const Domain tr = N == 3 ? X({named(range("t", 0, 25, true), "t in {-2..2}^2"), named(list("tgrid", {gridcode(5, 2)}, true), "")})
-                           : X({named(range("t", 0, 27, true), "t in {-1,0,1}^3"), named(list("tgrid", {gridcode(3, 1)}, true), "")});
+  const Domain tr = N == 3 ? X({named(range("t", 0, 25, true), "t in {-2..2}^2"), named(list("tgrid", {gridcode(5, 2)}, true), "5/2")})
+                           : X({named(range("t", 0, 27, true), "t in {-1,0,1}^3"), named(list("tgrid", {gridcode(3, 1)}, true), "3/1")});
   const Domain sc = fl ? exps({-8, 0, 8}) : exps({-20, 0, 20});
-  Op& op = E.add("affineInverse" + t, op_affine<N, T>); op.quick = {X({L, tr, sc})}; op.thorough = {X({LT, tr, sc})};
+  const Domain tr4 = X({named(list("t", {0, 5, 13, 21}), "t in 4 of {-1,0,1}^3"), named(list("tgrid", {gridcode(3, 1)}, true), "3/1")});
+  Op& op = E.add("affineInverse" + t, op_affine<N, T>); op.quick = {X({L, tr, sc})}; if (N == 4) op.thorough = {X({L, tr, sc}), X({LT, tr4, sc})};
   op.classes = {"unimodular", "general in-range", "singular or cond>limit (skipped)"};
 }
 
@@ -356,5 +383,7 @@ int main(int argc, char** argv) {
   { Op& op = E.add("ext/matrix_integer determinant<2,int>", op_idet<2>); op.quick = {grid(2, 5, 2, "{-2..2}")}; op.classes = {"singular", "non-singular"}; }
   { Op& op = E.add("ext/matrix_integer determinant<3,int>", op_idet<3>); op.quick = {grid(3, 5, 2, "{-2..2}")}; op.classes = {"singular", "non-singular"}; }
   { Op& op = E.add("ext/matrix_integer determinant<4,int>", op_idet<4>); op.quick = {grid(4, 2, 0, "{0,1}")}; op.thorough = {grid(4, 3, 1, "{-1,0,1}")}; op.classes = {"singular", "non-singular"}; }
+  { Op& op = E.add("determinant/inverse, large grid<4,float>", op_light4); op.quick = {range("SMALLMAT(4,{-1,0,1,2}) every 4099-th", 0, ((1ull << 32) + 4098) / 4099, false, 4099)};
+    op.thorough = {range("SMALLMAT(4,{-1,0,1,2})", 0, 1ull << 32, true)}; op.classes = {"singular (determinant only)", "unimodular", "general non-singular"}; }
   return E.main(argc, argv);
 }
